@@ -124,7 +124,7 @@ CHECKS["C28"] = {
 CHECKS["C07"] = {
     "level": "model_checking",
     "technique": "bounded-exhaustive caller x callee x call-site enumeration; real InlineTrans on every call; the written and re-read result is executed by the E1 reference interpreter and compared with by-reference execution of the original on n=1..3 x k=1..2; Fortran aliasing rules enforced by an admissibility monitor; gfortran cross-check of the originals",
-    "text": "quick: 1,462 programs (scalar/array/element/section/structure/expression actuals, clashing local and module names, explicit- and assumed-shape dummies with non-unit lower bounds, functions, calls in loops/ifs/expressions), 1,510 accepted inlinings executed 8.5k times; thorough: 52.9k programs. The caller's observable store (dummies + module variables) must be unchanged by inlining.",
+    "text": "quick: 1,462 programs (scalar/array/element/section/structure/expression actuals, clashing local and module names, explicit- and assumed-shape dummies with non-unit lower bounds, functions, calls in loops/ifs/expressions), 1,510 accepted inlinings executed 8.5k times; thorough: the quick corpus plus the complete scalar-dummy families (bodies of <= 3 statements, <= 3 scalar dummies, all call contexts; 10.4k programs in all). The caller's observable store (dummies + module variables) must be unchanged by inlining.",
     "note": "The transformed program that is executed is the FortranWriter text re-read by the frontend (so name capture is visible). Inadmissible originals (aliasing violations, definition of expression-associated dummies) are skipped. Open findings: actual arguments re-evaluated at each use (call-by-name), undeclared extent names from explicit-shape dummies / automatic arrays, structure-member actuals not shifted, bounds inquiries answered for the actual, smaller explicit-shape dummies. Fixed: local capturing a module variable.",
 }
 CHECKS["C29"] = {
